@@ -7,6 +7,10 @@ Definition interp_with_lib (f : fnid) (item : nested) : res value :=
   if str_eqb f "w_len" then
     map_ok (fun v => match v with VStr s => VInt (Z.of_nat (String.length s)) | _ => VUnit end)
            (from_meta string_fm item)
+  else if str_eqb f "w_opt_len" then
+    (* a converter for an Option<i64> field: when the item is absent the field holds the type's value-for-absent *)
+    map_ok (fun v => match v with VStr s => VSome (VInt (Z.of_nat (String.length s))) | _ => VUnit end)
+           (from_meta string_fm item)
   else if str_eqb f "w_fail" then Err (custom "w_fail")
   else Panic ("model: unknown with-function " ++ f).
 
